@@ -1,7 +1,8 @@
 From Coq Require Extraction.
 From Coq Require Import ExtrOcamlBasic.
-From NV Require Import Base.Witness CramIdx.Crai CramIdx.Multi CramIdx.Transport CramIdx.Bytes CramIdx.AsyncQuery.
+From NV Require Import Base.Witness CramIdx.Crai CramIdx.Multi CramIdx.Transport CramIdx.Bytes CramIdx.AsyncQuery CramIdx.Gz.
 Extraction "model.ml" nv_types_witness written index index_core query_region mkrec
   index_m query_region_m query_unmapped wslice mkmcont bump_landmark single_file
   crai_text query_via_file query_unmapped_via_file index_of_bytes32
-  async_queries32 async_query_unmapped32 sync_queries32 sync_query_unmapped32.
+  async_queries32 async_query_unmapped32 sync_queries32 sync_query_unmapped32
+  read_crai_gz gunzip gz_framed_as write_crai_gz_stored beqb.
